@@ -400,8 +400,6 @@ func redactPipelineStage(stage interface{}, redactFieldNames bool, keyPath []str
 						case string:
 							if len(keyPath) > 0 {
 								newMap.Set(redactedKey, vTyped)
-							} else if _, isOp := getOp([]string{vTyped}, inSearchStage); isOp {
-								newMap.Set(redactedKey, vTyped)
 							} else {
 								newMap.Set(redactedKey, HashName(vTyped))
 							}
@@ -495,11 +493,7 @@ func redactPipelineStage(stage interface{}, redactFieldNames bool, keyPath []str
 									if redactFieldNames {
 										switch subVTyped := subV.(type) {
 										case string:
-											if _, isOp := getOp([]string{subVTyped}, inSearchStage); isOp {
-												newSubMap.Set(subK, subVTyped)
-											} else {
-												newSubMap.Set(subK, HashName(subVTyped))
-											}
+											newSubMap.Set(subK, HashName(subVTyped))
 										case *orderedmap.OrderedMap[string, any]:
 											newSubMap.Set(subK, redactPipelineStage(subVTyped, redactFieldNames, append(newKeyPath, subK), inSearchStage))
 										case []any:
@@ -565,11 +559,7 @@ func redactPipelineStage(stage interface{}, redactFieldNames bool, keyPath []str
 						}
 						if subStr, ok := subV.(string); ok && len(subStr) > 0 && subStr[0] == '$' && redactFieldNames {
 							// a '$field' reference: renamed like the field itself
-							if _, isOp := getOp([]string{subStr}, inSearchStage); isOp {
-								newSubMap.Set(redactedSubK, subV)
-							} else {
-								newSubMap.Set(redactedSubK, HashName(subStr))
-							}
+							newSubMap.Set(redactedSubK, HashName(subStr))
 							continue
 						}
 						switch subVTyped := subV.(type) {
@@ -598,8 +588,6 @@ func redactPipelineStage(stage interface{}, redactFieldNames bool, keyPath []str
 			if str, ok := v.(string); ok && len(str) > 0 && str[0] == '$' {
 				// a '$field' reference: kept, or renamed like the field itself
 				if !redactFieldNames {
-					newMap.Set(redactedKey, v)
-				} else if _, isOp := getOp([]string{str}, inSearchStage); isOp {
 					newMap.Set(redactedKey, v)
 				} else {
 					newMap.Set(redactedKey, HashName(str))
@@ -665,11 +653,8 @@ func redactQueryValues(obj *orderedmap.OrderedMap[string, any], redactFieldNames
 		default:
 			if v != nil {
 				if str, ok := v.(string); ok && len(str) > 0 && str[0] == '$' {
-					isOp := false
-					if _, ok := CoreOperators.Get(str); ok {
-						isOp = true
-					}
-					if redactFieldNames && !isOp {
+					// operators occur as keys only: a '$...' value is a field reference
+					if redactFieldNames {
 						newObj.Set(redactedKey, HashName(str))
 					} else {
 						newObj.Set(redactedKey, v)
@@ -715,11 +700,7 @@ func redactArrayValuesWithKey(parentKey string, arr []any, redactFieldNames bool
 		default:
 			if item != nil {
 				if str, ok := item.(string); ok && len(str) > 0 && str[0] == '$' {
-					isOp := false
-					if _, ok := CoreOperators.Get(str); ok {
-						isOp = true
-					}
-					if redactFieldNames && !isOp {
+					if redactFieldNames {
 						arr[i] = HashName(str)
 					} else {
 						arr[i] = item
